@@ -307,3 +307,18 @@ null_verify = Spec('C01', 'mac', '_NullMAC.verify', self_class='_NullMAC',
                    params=dict(seq='int', packet='bytes', sig='bytes'), classes=MAC_CLASSES,
                    ensures=[('null-mac-accepts-only-the-empty-tag',
                              lambda c: c.result == (z3.Length(c.arg('sig')) == 0))], returns='bool')
+
+
+# ------------------------------------------------------------------ (e) directional key separation at NEWKEYS
+# the same contract as C02's send_newkeys, registered for C01: an attacker who reflects a packet into the other
+# direction must fail the tag check, which needs the two directions to use keys derived with different letters
+from . import c02 as _c02                                     # noqa: E402
+
+send_newkeys = Spec(
+    'C01', 'connection', 'SSHConnection.send_newkeys', self_class='SSHConnection',
+    params=dict(k='bytes', h='bytes'),
+    classes={c: dict(fs) for c, fs in _c02.send_newkeys.classes.items()},
+    stubs=dict(_c02.send_newkeys.stubs),
+    requires=_c02.send_newkeys.requires,
+    ensures=[('rfc4253-7.2-letters-and-directions', _c02.newkeys_keys)],
+    raises={'UnicodeDecodeError': True, 'AssertionError': lambda c: z3.BoolVal(False)})
